@@ -1,5 +1,6 @@
 import HbsModel.Registry
 import HbsModel.Lemmas.RM
+import HbsModel.Lemmas.Induct2
 /-
   C10  Strict mode only adds errors: it never changes successful output.
 -/
@@ -79,5 +80,172 @@ theorem default_call_strict_missing (reg : Registry) (root : Json) (fuel : Nat) 
     (hs : reg.strict = true) :
     callHelper reg root (fuel + 1) d h rc out = .err (strictError none) out := by
   simp [callHelper, hin, hres, hs, SJ.isMissing]
+
+end Hbs.C10
+
+/-! ### strict mode only ADDS errors – for the whole renderer (relational induction principle of
+    Lemmas/Induct2): the strict run of ANY template is either identical to the non-strict run – same
+    value, same final state, same output, same error – or it ends with an error of a strict kind. -/
+namespace Hbs.C10
+open Hbs RM
+
+/-- `x` is the strict instance of a computation and `y` the non-strict one -/
+def OnlyAdds {α : Type} (x y : RM α) : Prop :=
+  ∀ rc o, x rc o = y rc o ∨ ∃ e o', x rc o = .err e o' ∧ StrictKind e.reason
+
+theorem onlyAdds_bnd {α β : Type} (x x' : RM α) (f f' : α → RM β) (hx : OnlyAdds x x')
+    (hf : ∀ a, OnlyAdds (f a) (f' a)) : OnlyAdds (RM.bnd x f) (RM.bnd x' f') := by
+  intro rc o
+  rcases hx rc o with heq | ⟨e, o', he, hk⟩
+  · rw [RM.bnd_apply, RM.bnd_apply, ← heq]
+    cases hr : x rc o with
+    | ok a rc1 o1 => exact hf a rc1 o1
+    | err e o1 => exact Or.inl rfl
+    | panic s => exact Or.inl rfl
+    | fuel => exact Or.inl rfl
+  · right; exact ⟨e, o', by rw [RM.bnd_apply, he], hk⟩
+
+theorem onlyAdds_mapErr {α : Type} (x x' : RM α) (g : RenderError → RenderError)
+    (hg : ∀ e, (g e).reason = e.reason) (hx : OnlyAdds x x') : OnlyAdds (RM.mapErr x g) (RM.mapErr x' g) := by
+  intro rc o
+  rcases hx rc o with heq | ⟨e, o', he, hk⟩
+  · left; unfold RM.mapErr; rw [heq]
+  · right; exact ⟨g e, o', by unfold RM.mapErr; rw [he], by rw [hg]; exact hk⟩
+
+theorem onlyAdds_captured {α : Type} (x x' : RM α) (hx : OnlyAdds x x') : OnlyAdds (RM.captured x) (RM.captured x') := by
+  intro rc o
+  rcases hx rc {} with heq | ⟨e, o', he, hk⟩
+  · left; unfold RM.captured; rw [heq]
+  · right; exact ⟨e, o, by unfold RM.captured; rw [he], hk⟩
+
+theorem onlyAdds_cleanup (x x' : RM Unit) (c : RC → RC) (hx : OnlyAdds x x') :
+    OnlyAdds (RM.withCleanup x c) (RM.withCleanup x' c) := by
+  intro rc o
+  rcases hx rc o with heq | ⟨e, o', he, hk⟩
+  · left; unfold RM.withCleanup; rw [heq]
+  · right; exact ⟨e, o', by unfold RM.withCleanup; rw [he], hk⟩
+
+def onlyAddsRel : RMRel where
+  R := fun x y => OnlyAdds x y
+  refl := fun _ _ _ => Or.inl rfl
+  bnd := onlyAdds_bnd
+  mapErr := onlyAdds_mapErr
+  captured := onlyAdds_captured
+  cleanup := onlyAdds_cleanup
+  throwL := fun e _ hk _ o => Or.inr ⟨e, o, rfl, hk⟩
+
+/-- **Strict mode only adds errors.**  For ANY template, data, registry, state, writer and fuel: the
+    strict render is the non-strict render, or it fails with MissingVariable / ParamNotFoundForName. -/
+theorem strict_only_adds_errors (reg : Registry) (root : Json) (fuel : Nat) (t : Tmpl) (rc : RC) (o : Out) :
+    renderTemplate (reg.withStrict true) root fuel t rc o = renderTemplate (reg.withStrict false) root fuel t rc o ∨
+    ∃ e o', renderTemplate (reg.withStrict true) root fuel t rc o = .err e o' ∧ StrictKind e.reason :=
+  (onlyAddsRel.all reg root fuel).renderTemplate t rc o
+
+/-- whenever a strict render succeeds, the non-strict render succeeds with the identical output -/
+theorem strict_success_is_nonstrict_output (reg : Registry) (root : Json) (fuel : Nat) (t : Tmpl) (rc rc' : RC) (o o' : Out)
+    (h : renderTemplate (reg.withStrict true) root fuel t rc o = .ok () rc' o') :
+    renderTemplate (reg.withStrict false) root fuel t rc o = .ok () rc' o' := by
+  rcases strict_only_adds_errors reg root fuel t rc o with heq | ⟨e, o2, he, _⟩
+  · rw [← heq]; exact h
+  · rw [h] at he; cases he
+
+/-- the non-strict render failing means the strict one fails too (never the other way round) -/
+theorem nonstrict_error_is_strict_error (reg : Registry) (root : Json) (fuel : Nat) (t : Tmpl) (rc : RC) (o o' : Out) (e : RenderError)
+    (h : renderTemplate (reg.withStrict false) root fuel t rc o = .err e o') :
+    ∃ e2 o2, renderTemplate (reg.withStrict true) root fuel t rc o = .err e2 o2 := by
+  rcases strict_only_adds_errors reg root fuel t rc o with heq | ⟨e2, o2, he, _⟩
+  · exact ⟨e, o', by rw [heq]; exact h⟩
+  · exact ⟨e2, o2, he⟩
+
+/-- every registry is one of the two instances: `withStrict` only sets the flag -/
+theorem withStrict_self (reg : Registry) : reg.withStrict reg.strict = reg := rfl
+
+end Hbs.C10
+
+/-! ### … and at the level of the public entry points: lookup, dev-mode reloading and compilation do
+    not look at the strict flag. -/
+namespace Hbs.C10
+open Hbs RM
+
+theorem getOrLoad_withStrict (r : Registry) (b : Bool) (fs : FS) (name : Str) :
+    (r.withStrict b).getOrLoad fs name = r.getOrLoad fs name := by
+  simp only [Registry.getOrLoad, Registry.getOrLoadOptional, withStrict_dev, withStrict_sources,
+    withStrict_preventIndent, withStrict_templates]
+
+theorem gatherDev_withStrict (r : Registry) (b : Bool) (fs : FS) (pre : Option (Str × Tmpl))
+    (l : List (Str × Str)) (acc : List (Str × Tmpl)) :
+    (r.withStrict b).gatherDev fs pre l acc = r.gatherDev fs pre l acc := by
+  induction l generalizing acc with
+  | nil => rfl
+  | cons x rest ih =>
+    obtain ⟨name, p⟩ := x
+    simp only [Registry.gatherDev, getOrLoad_withStrict]
+    split
+    · exact ih _
+    · split
+      · exact ih _
+      · rfl
+
+theorem runRM_onlyAdds (x y : RM Unit) (h : OnlyAdds x y) (rc : RC) (o : Out) :
+    runRM x rc o = runRM y rc o ∨ ∃ e w, runRM x rc o = .err e w ∧ StrictKind e.reason := by
+  unfold runRM
+  rcases h rc o with heq | ⟨e, o', he, hk⟩
+  · left; rw [heq]
+  · right; exact ⟨e, o'.text, by rw [he], hk⟩
+
+theorem renderResolved_onlyAdds (r : Registry) (fs : FS) (name : Option Str) (t : Tmpl) (data : Json) (out : Out) :
+    (r.withStrict true).renderResolved fs name t data out = (r.withStrict false).renderResolved fs name t data out ∨
+    ∃ e w, (r.withStrict true).renderResolved fs name t data out = .err e w ∧ StrictKind e.reason := by
+  unfold Registry.renderResolved
+  simp only [withStrict_dev, withStrict_sources, gatherDev_withStrict]
+  cases hd : r.dev with
+  | false =>
+    simp only [Bool.not_false, ↓reduceIte]
+    exact runRM_onlyAdds _ _ ((onlyAddsRel.all r data renderFuel).renderTemplate t) _ _
+  | true =>
+    simp only [Bool.not_true, Bool.false_eq_true, ↓reduceIte]
+    cases hg : r.gatherDev fs (name.map (fun n => (n, t))) r.sources [] with
+    | error e => left; cases e <;> rfl
+    | ok dmt =>
+      simp only []
+      cases name with
+      | none =>
+        simp only []
+        exact runRM_onlyAdds _ _ ((onlyAddsRel.all r data renderFuel).renderTemplate t) _ _
+      | some n =>
+        simp only []
+        cases ha : assocGet dmt n with
+        | none => left; rfl
+        | some t' =>
+          simp only []
+          exact runRM_onlyAdds _ _ ((onlyAddsRel.all r data renderFuel).renderTemplate t') _ _
+
+/-- **Strict mode only adds errors, as seen through `render` / `render_to_write`**: for any registry,
+    file system, registered name, data and writer the strict result is the non-strict result (same text
+    or same error after the same text) or an error of a strict kind. -/
+theorem render_strict_only_adds (r : Registry) (fs : FS) (name : Str) (data : Json) (out : Out) :
+    (r.withStrict true).renderToOutput fs name data out = (r.withStrict false).renderToOutput fs name data out ∨
+    ∃ e w, (r.withStrict true).renderToOutput fs name data out = .err e w ∧ StrictKind e.reason := by
+  unfold Registry.renderToOutput
+  simp only [getOrLoad_withStrict]
+  cases hl : r.getOrLoad fs name with
+  | ok t => exact renderResolved_onlyAdds r fs (some name) t data out
+  | err e => left; rfl
+  | panic s => left; rfl
+  | fuel => left; rfl
+
+/-- the same for `render_template` (source given at the call) -/
+theorem render_template_strict_only_adds (r : Registry) (fs : FS) (src : Str) (data : Json) (fa : Option Nat) :
+    (r.withStrict true).renderTemplateToWrite fs src data fa = (r.withStrict false).renderTemplateToWrite fs src data fa ∨
+    ∃ e w, (r.withStrict true).renderTemplateToWrite fs src data fa = .err e w ∧ StrictKind e.reason := by
+  unfold Registry.renderTemplateToWrite Registry.renderTemplateWithContextToWrite
+  have hc : ∀ b, (r.withStrict b).compileForRenderTemplate src = r.compileForRenderTemplate src := by
+    intro b; simp only [Registry.compileForRenderTemplate, withStrict_preventIndent]
+  simp only [hc]
+  cases hl : r.compileForRenderTemplate src with
+  | ok t => exact renderResolved_onlyAdds r fs none t data _
+  | err e => left; rfl
+  | panic s => left; rfl
+  | fuel => left; rfl
 
 end Hbs.C10
